@@ -219,5 +219,38 @@ def check_C06(ctx):
                                       cuts=[(r["n"], r["class"]) for r in data[0]["out"][1:8]])] if data and data[0]["out"] else [])
 
 
-REGISTRY = {"C06": check_C06, "C10": check_C10, "C15": check_C15, "C01": check_C01, "C02": check_C02, "C04": check_C04, "C05": check_C05,
+def check_C07(ctx):
+    import replay, collections
+    ctx.trusted += M1_TRUST
+    coq_props(ctx, "C07", ["C07_demo", "C07_demo_idempotent"])
+    data = replay.replay_stream(ctx)
+    tie = replay.c07_tie(ctx, data)
+    ctx.oblige("correspondence: Model/Replay.v evaluates in Coq on the observed replays", tie["ok"], tie["log"])
+    ctx.oblige("correspondence: index rows after replaying the whole tape into a prefix index agree between model and implementation (%d replays of %d tapes)" % (tie["total"], tie["cases"]),
+               tie["ok"] and not tie["bad"], json.dumps(tie["bad"][:3]))
+    for (k, v) in tie["bad"][:3]:
+        ctx.violation("correspondence", "rows after replay differ from the model (history %d, prefix lengths %s)" % (k, v),
+                      dict(history=dict(config=data[k]["h"]["config"], blobs=data[k]["h"]["blobs"], calls=data[k]["h"]["calls"][:data[k]["h"]["nbase"]]), mismatching=v), found_input=False)
+    nfail, nrep = 0, 0
+    kinds = collections.Counter()
+    for d in data:
+        if d is None:
+            continue
+        nrep += sum(1 for c in d["h"]["calls"] if c.get("tag") in ("replay", "live"))
+        for c in d["h"]["calls"][:d["h"]["nbase"]]:
+            kinds[c["op"]] += 1
+        for f in replay.c07_oracle(d):
+            nfail += 1
+            if nfail <= 5:
+                ctx.violation(f["kind"], "%s (call %d of the replay experiment)" % (f["kind"], f["i"]),
+                              dict(history=dict(config=d["h"]["config"], blobs=d["h"]["blobs"], calls=d["h"]["calls"][:f["i"] + 1]), detail=f["detail"],
+                                   how="run the calls: the tape is saved, an index is rebuilt from its first j records, the whole tape is re-indexed with overwrite=false"))
+    ctx.oblige("oracle: every replay (over the live index and over prefix indexes) reports no error, shows the tree of a rebuild from scratch, and a second replay changes nothing", nfail == 0, "%d failures" % nfail)
+    ctx.coverage.update(evaluations=nrep, tapes=len([d for d in data if d]), distinct_nontrivial=len([d for d in data if d and any(c["op"] in ("rename", "move") for c in d["h"]["calls"])]),
+                        op_histogram=dict(kinds),
+                        rule="generated histories (moves, delete-then-recreate, rename onto used names); for each, prefix lengths j sampled incl. 0 and all; non-trivial = the history contains a rename/move",
+                        samples=[dict(calls=[(c["op"], c.get("name"), c.get("name2")) for c in data[0]["h"]["calls"][:data[0]["h"]["nbase"]]])] if data and data[0] else [])
+
+
+REGISTRY = {"C07": check_C07, "C06": check_C06, "C10": check_C10, "C15": check_C15, "C01": check_C01, "C02": check_C02, "C04": check_C04, "C05": check_C05,
             "C12": check_C12, "C13": check_C13}
